@@ -1,1 +1,2 @@
 pub mod lossless;
+pub mod fmt;
